@@ -441,7 +441,7 @@ def c19_wrappers(ctx, prog, cprog):
     # F5 poll copy in / out
     P = prog.fn("reproc::poll")
     inits = [n for n in P.walk() if n["k"] == "InitListExpr" and n.get("rec") == "reproc_event_source"]
-    loops = [n for n in P.walk() if n["k"] == "ForStmt"]
+    loops = [n for n in P.walk() if n["k"] in ("ForStmt", "WhileStmt")]
     news = [n for n in P.walk() if n["k"] == "CXXNewExpr"]
     dels = [n for n in P.walk() if n["k"] == "CXXDeleteExpr"]
     call = [n for n in P.walk() if n["k"] == "CallExpr" and n.get("callee") == "reproc_poll"]
@@ -449,11 +449,28 @@ def c19_wrappers(ctx, prog, cprog):
     ok = len(inits) == 1 and len(loops) == 2 and len(news) == 1 and news[0].get("array") and len(dels) == 1 and dels[0].get("array") \
         and len(call) == 1 and [source_name(a) for a in call[0]["c"][1:]] == ["reproc_sources", "num_sources", "timeout"] and len(copy_out) == 1
     guard = False
+
+    def ev_cond(c, r):
+        """truth of a comparison of the poll result (any variable) with a constant, for the result value r"""
+        c = cstrip(c)
+        if c["k"] == "UnaryOperator" and c.get("op") == "!":
+            v = ev_cond(c["c"][0], r)
+            return None if v is None else not v
+        if c["k"] == "BinaryOperator" and c["op"] in ("<", "<=", ">", ">=", "==", "!="):
+            a, b = cstrip(c["c"][0]), cstrip(c["c"][1])
+            va = a.get("val") if "val" in a else (r if a["k"] == "DeclRefExpr" else None)
+            vb = b.get("val") if "val" in b else (r if b["k"] == "DeclRefExpr" else None)
+            if va is None or vb is None:
+                return None
+            return {"<": va < vb, "<=": va <= vb, ">": va > vb, ">=": va >= vb, "==": va == vb, "!=": va != vb}[c["op"]]
+        return None
     if copy_out:
         for a in P.ancestors(copy_out[0]):
             if a["k"] == "IfStmt":
-                c = cstrip(P.nodes[a["cond"]])
-                guard = c["k"] == "BinaryOperator" and c["op"] == ">=" and cstrip(c["c"][1]).get("val") == 0
+                in_then = copy_out[0]["id"] in {x["id"] for x in walk_nodes(P.nodes[a["then"]])} if a.get("then") is not None else True
+                vals = [ev_cond(P.nodes[a["cond"]], r) for r in (-5, -1, 0, 1, 7)]
+                want = [False, False, True, True, True] if in_then else [True, True, False, False, False]
+                guard = vals == want
     ctx.ob("C19.F5", "reproc::poll", "every source's handle and interests are copied in per index, reproc_poll gets the array, count and "
            "timeout, events are copied back per index when the call succeeded, and the temporary array is freed", ok and guard,
            {"new[]": len(news), "delete[]": len(dels), "copy_out_guarded_by_r>=0": guard})
